@@ -120,22 +120,9 @@ CHECKS = {
              "not run (MPI_Pack/MPI_Unpack on the same messages are); zero-based views only (C19 owns index bases); no int/MPI_Aint "
              "overflow; mpi::data(iterator) ignores the stride (recorded observation, outside the statement; the suite expects it)"),
     "C16": dict(
-        text="A finite automaton astep : state -> operation -> outcome over (library kind, top-level const, value category, "
-             "pointer-to-const, rank) models overload resolution of every access operation; C16_const_propagates (Coq): along "
-             "paths of ANY length and for every rank, an expression typed read-only only yields read-only expressions and none "
-             "accepts =, fill or swap, for paths that never call const_iterator::base() (the one remaining hole: "
-             "C16_const_propagates_refuted, known finding); C16_mutable_paths; C16_no_rebind / C16_view_assignment; "
-             "C16_repaired_sites_are_clean. The one-step invariant is checked over all table rows by vm_compute and lifted. The "
-             "table is tied EXHAUSTIVELY to the library: one compiled C++ probe per (state, operation) row (14 172 rows in quick, "
-             "incl. must-fail compilations for hard errors) must classify as the model says; independently every access path of "
-             "depth <= 2 (quick) / <= 3 (thorough, ~10^6 expressions) from the six root kinds is compiled and checked for "
-             "writability. Five const holes found by this check were fixed in /repo.",
-        design_ref="5/C16", technique="Coq proof (induction over access paths from a one-step invariant discharged by vm_compute over "
-                                      "the finite table) + exhaustive compile-time probes of every table row + direct enumeration "
-                                      "of the property's path space",
-        note="the all-depths theorem is over a finite table; the table is tied exhaustively for D 1..3 (4 in thorough) and int "
-             "elements, other element types are assumed not to change overload resolution; g++ 12; nine view-forming operations "
-             "that lose mutability from a mutable receiver and const_iterator::base() are recorded known findings"),
+        text="A finite automaton astep : state -> operation -> outcome over (library kind x pointer family, D class, top-level const, value category) -- 93 kinds (views, iterators, element ranges / iterators, cursors, subarray_ptrs, element pointers over int*, int const*, transform_ptr with reference int& / int const& / a value, move_ptr; struct-element sources), 99 operations (access and view-forming, the projections element_transformed / member_cast / reinterpret_ / static_ / const_array_cast / element_moved, mutable_base / cbase / elements_at / apply / data, conversions between handle kinds {implicit, explicit, assignment, comparison}, view construction, decay) -- follows array_ref.hpp / array.hpp / utility.hpp overload set by overload set.  C16_const_propagates (Coq): along paths of ANY length and for every rank a read-only typed expression only yields read-only typed expressions and none accepts =, fill or swap, outside the named exclusions (`hole`: const_iterator::base(); transform_ptr::base(); const subarray_ptr -> subarray_ptr; transform_ptr<.., T const&> -> <.., T&>; static_array_cast<T>(); 1-D member_cast; element_transformed / member_cast of a non-const const_subarray; const_array_cast() and mutable_base() as the library's named ways out), each shown to be a real site by C16_holes_are_real ; four of them are repaired in /repo (5b32331, 1fb0749, 0bae362: the model's fx_* switches follow the repaired tree), the rest are known findings; C16_const_propagates_refuted; C16_projections_and_conversions; C16_mutable_paths; C16_mutability_lost_only_at_gaps; C16_no_rebind / C16_view_assignment; C16_repaired_sites_are_clean.  The table is tied EXHAUSTIVELY to the library: one compiled C++ probe per (state, operation) row (52 588 rows in quick, 74 428 in thorough, incl. must-fail compilations / links) must classify as the model says; independently every access path of depth <= 2 over the whole alphabet (81 k expressions) and, in thorough, of depth 3 over the first alphabet (1.9 M) from twelve kinds of root is compiled as one expression and monitored; 232 run-time write attempts.",
+        design_ref="5/C16", technique='Coq proof (induction over access paths from one-step invariants discharged by vm_compute over the finite kind-level table, 93 x 4 x 2 x 2 x 99 rows) + exhaustive compile-time probes of every table row (detection idiom, type classifier by pattern matching, instantiation, must-fail functions / links) + direct enumeration of composed expressions + run-time write witnesses',
+        note='the all-depths theorem is over a finite table; the table is tied exhaustively for D 1..3 (4 in thorough) over raw pointers and D 1..2 (3 in thorough) over the projection families; element types int and struct {int a; int b;}; transform_ptr kinds are functor-agnostic (canonical functor &S::b; four functors in the composed paths); conversions have no rows in the value families and after a non-canonical functor; view construction is composed only on named receivers (prvalue / xvalue are one state); results outside the fragment (move_subarray, subarray<T const, ..>, struct elements, nested projections) are absorbing; g++ 12 -std=c++17; ten const-clause known findings (seven open sites + the nine mutability gaps of the first report are unchanged); Coq 8.16.1 kernel, Print Assumptions in the evidence'),
     "C12": dict(
         text="Coq theorems (Properties_C12.v, 31, all ranks/extents/strides/index bases/operation sequences/index tuples/iterator traces; the model follows layout_t::scale as repaired in /repo 1b46e17: stride, offset and nelems scaled, two divisibility assertions): the assertions of scale are exactly den | stride*num and den | offset*num at every level, the offset one follows from the stride one on every well-formed layout and both hold whenever sizeof(U) divides sizeof(T) (C12_scale_assertions; the old offset==0 exclusion is recorded as C12_scale_old_code_refuted); on views with ANY index bases (negative, zero, positive) member_cast keeps the source's index ranges and sizes and designates byte offsetof(member) of the source element at the same index tuple, reinterpret_array_cast<U>() keeps ranges and every element's address (generic and rank-1 const& code), reinterpret_array_cast<U>(n) keeps the source ranges, adds the range [0,n) and puts element (idx,j) at byte j*sizeof(U) of element idx (C12_member_cast_any_base, C12_reinterpret_any_base, C12_reinterpret_extra_dim_any_base, C12_reinterpret_rank1_any_base), and on every view reachable from a root over arbitrary index extensions no assertion of these casts can fire, for every receiver kind, and element idx is the member/bytes of the root element the documented index maps prescribe (C12_member_cast/_reinterpret/_reinterpret_extra_dim_from_based_root); the zero-based statements with shape_agrees and containment (C12_member_cast_addr/_from_root, C12_reinterpret_addr/_same_size, C12_reinterpret_extra_dim/_from_root); element_transformed has the source's shape, reads f(source element) at access time and writes through a reference-returning projection changing only that sub-object (C12_transformed, C12_transformed_write_through); static/const_array_cast, as_const and element_transformed keep layout and base on every view, and on every re-based reachable view the element read is f of the root element the index maps prescribe (C12_cast_identity, C12_identity_any_base); projections commute with every C01 operation (C12_compose, C12_compose_extra_dim, C12_compose_ops); iterators of projected views after any ++ -- += -= trace are at the computed position and designate what indexing designates = the projection of the source's sub-view, also through it[k] and std::reverse_iterator, leading and flat (C12_projected_iterator_lead/_any_base/_flat); an array constructed or assigned from a view/projection of any index base is always defined, has the source's extensions including first indices and element idx = conv(source element idx); array(first,last) restarts the leading index at 0, array(elements()) is the flat sequence (C12_convert_construct/_pview/_any_base/_based, C12_convert_iter_pair, C12_convert_flat). Tie: generated projection programs over struct and complex elements; 55% of the roots over extensions with bases from -3..3 in every dimension, reindexed/blocked/rows/rotated views of them; every projection overload of array_ref.hpp through its const-lvalue, lvalue, xvalue and prvalue receivers (measured table by kind x receiver x rank class x sign of the source's bases in the evidence): extensions, sizes, strides after every step, value and byte offset of &proj[idx], root words modified by writes, laziness, iterator walks compared with the model and with indexing, and arrays made through every converting constructor/assignment of array.hpp: extensions and elements.",
         design_ref="5/C12", technique="Coq proof (scale lemmas on the any-base layout invariant dim_okg/lay_okg with the zero-based C01 invariant as a corollary, C19's twin-program theorem for the from-root statements, simulation through step_ok for composition, C02's iterator and mixed-radix lemmas lifted to projected views, iterated next_canonical for the flat copy) + extracted-model vs library differential on projection programs (harness compiled per run in 23 parallel translation units against the tree under test), model-independent monitors (iterator vs indexing, it-begin vs token arithmetic, value = object at the printed address, accesses inside the root), three compile-time probes, regression corpus of 10.3k cases (4.9k of them projections of re-based sources through every receiver kind), sanitizer run and vm_compute cross-check in the thorough tier",
